@@ -16,7 +16,7 @@ import (
 func init() { Registry["C13"] = checkC13 }
 
 func checkC13(p *core.Prog, r *core.Report) {
-	r.Explanation = "Decides a stated domain of crash sites reachable from client input (connection goroutines have no recover(), checked as a fact): (R1) in every function of server/ and protocol/ that receives a text command's argument list ([]string parameter), every index args[c], args[v+c] and re-slice args[c:] is covered on its path by a length test of that list (len(args) lower bound from ==, <, <=, != tests in either polarity; v+c forms by a test of the same v against len(args)); a guard on a different expression of v does not count; (R2) every result code has an ERROR_MSG entry; (R3) the optional pointers LockCommand.Data, LockResultCommand.Data, LockManager.currentData and Lock.data are dereferenced (field access or method call) only on paths that tested them non-nil; (R4) constant indexes into client value frames (LockCommandData.Data, origin byte frames) are covered by a length test or by the frame reader's minimum length. Sites outside the domain (indices through struct fields, data-dependent offsets, loops with stride arithmetic) are counted as outside_domain and not claimed. (R5) in the text parser and stream readers an index of the form v-c (c>0) is covered by a test v >= c on its path. NOT decided: integer overflow, huge allocations, channel/close misuse, type assertions, deadlock, stack exhaustion."
+	r.Explanation = "Decides a stated domain of crash sites reachable from client input (connection goroutines have no recover(), checked as a fact): (R1) in every function of server/ and protocol/ that receives a text command's argument list ([]string parameter), every index args[c], args[v+c] and re-slice args[c:] is covered on its path by a length test of that list (len(args) lower bound from ==, <, <=, != tests in either polarity; v+c forms by a test of the same v against len(args)); a guard on a different expression of v does not count; (R2) every result code has an ERROR_MSG entry; (R3) the optional pointers LockCommand.Data, LockResultCommand.Data, LockManager.currentData and Lock.data are dereferenced (field access or method call) only on paths that tested them non-nil; (R4) constant indexes into client value frames (LockCommandData.Data, origin byte frames) are covered by a length test or by the frame reader's minimum length. Sites outside the domain (indices through struct fields, data-dependent offsets, loops with stride arithmetic) are counted as outside_domain and not claimed. (R5) in the text parser and stream readers an index of the form v-c (c>0) is covered by a test v >= c on its path. (R6) in the text parser every rbuf[e] has e < bufLen and every rbuf[a:b] has b <= bufLen on its path (linear entailment over the symbolic cursor and length; loop-carried locals are outside the domain); (R7) the per-connection reply buffer: every advance of the write index provably fits and the invariant index+64 <= len(buf) is re-established at every exit (inductive, assuming it at entry). NOT decided: integer overflow, huge allocations, channel/close misuse, type assertions, deadlock, stack exhaustion."
 	r.Assumptions = []string{"Go type checker and go/ssa are correct for /repo", "a handler dispatched through a command registry receives the parsed command with its name at args[0] (len(args) >= 1)", "a panic in any goroutine started for a connection kills the process (no recover in Server.handle: asserted)"}
 	c13NoRecover(p, r)
 	c13R1(p, r)
@@ -25,6 +25,7 @@ func checkC13(p *core.Prog, r *core.Report) {
 	c13R4(p, r)
 	c13R5(p, r)
 	c13R6(p, r)
+	c13R7(p, r)
 }
 
 // c13NoRecover asserts the premise that makes every panic fatal.
@@ -798,6 +799,219 @@ func c13R6(p *core.Prog, r *core.Report) {
 		ex.Run(fn, nil)
 		if ex.Imprecise != "" {
 			r.Fail("C13/R6 %s: %s", name, ex.Imprecise)
+		}
+	}
+}
+
+// c13R7: headroom of the per-connection reply buffer. Replies of pipelined
+// requests are appended to StreamWriterBuffer.buf at .index and flushed later
+// by WriteToConn, which slices buf[:index]: an index beyond len(buf) panics in
+// the connection goroutine (copy() itself truncates silently). The appender
+// keeps the invariant index+64 <= len(buf) between calls (it flushes when the
+// next header would not fit). Inductive check over the functions that advance
+// the index: assuming the invariant at entry, every advance index += n is
+// preceded on its path by comparisons from which index+n <= len(buf) follows
+// (linear combination; a successful WriteToConn resets the index to 0), and
+// the invariant holds again at every exit that advanced the index.
+func c13R7(p *core.Prog, r *core.Report) {
+	const rule = "C13/R7"
+	r.Rule(rule, "reply write buffer: every advance of StreamWriterBuffer.index fits (index+n <= len(buf) follows from the path's comparisons and the entry invariant index+64 <= len(buf)), and the invariant is re-established before returning", 2)
+	idxKey := fk("server.StreamWriterBuffer", "index")
+	const I0, L = "index@entry", "len(buf)"
+	for _, fn := range p.FuncsIn("server") {
+		if fn.Blocks == nil || recvName(fn) == "StreamWriterBuffer" {
+			continue
+		}
+		adv := false
+		for _, b := range fn.Blocks {
+			for _, ins := range b.Instrs {
+				if st, ok := ins.(*ssa.Store); ok {
+					if k, ok := storeKey(st.Addr); ok && k == idxKey {
+						if _, isC := st.Val.(*ssa.Const); !isC {
+							adv = true
+						}
+					}
+				}
+			}
+		}
+		if !adv {
+			continue
+		}
+		name := core.FuncName(fn)
+		// the current index as a linear form over I0 and other terms, and the
+		// path facts as linear forms >= 0, are kept in the rule state
+		enc := func(l core.Lin) string {
+			var parts []string
+			parts = append(parts, strconv.FormatInt(l.C, 10))
+			var ks []string
+			for k := range l.T {
+				ks = append(ks, k)
+			}
+			sort.Strings(ks)
+			for _, k := range ks {
+				parts = append(parts, strconv.FormatInt(l.T[k], 10)+"\x00"+k)
+			}
+			return strings.Join(parts, "\x01")
+		}
+		dec := func(s string) core.Lin {
+			l := core.LinConst(0)
+			for i, part := range strings.Split(s, "\x01") {
+				if i == 0 {
+					l.C, _ = strconv.ParseInt(part, 10, 64)
+					continue
+				}
+				kv := strings.SplitN(part, "\x00", 2)
+				if len(kv) == 2 {
+					c, _ := strconv.ParseInt(kv[0], 10, 64)
+					l.T[kv[1]] = c
+				}
+			}
+			return l
+		}
+		cur := func(x *core.X) core.Lin {
+			if s := x.Get("cur"); s != "" {
+				return dec(s)
+			}
+			return core.LinTerm(I0)
+		}
+		// rewrite a canonical expression into a linear form over I0 / L / other terms
+		norm := func(x *core.X, e string) (core.Lin, bool) {
+			if strings.Contains(e, core.SnapMark) {
+				e = core.Plain(e)
+			}
+			l := core.ParseLin(e)
+			out := core.LinConst(l.C)
+			for t, c := range l.T {
+				switch {
+				case strings.HasSuffix(t, "riterBuffer.index") || strings.HasSuffix(t, ".index") && strings.Contains(t, "riterBuffer"):
+					out = out.Add(cur(x).Scale(c))
+				case strings.HasPrefix(t, "len(") && strings.HasSuffix(t, "riterBuffer.buf)"):
+					out = out.Add(core.LinTerm(L).Scale(c))
+				default:
+					out = out.Add(core.LinTerm(t).Scale(c))
+				}
+			}
+			return out, true
+		}
+		base := func(x *core.X) []core.Lin {
+			fs := []core.Lin{
+				core.LinTerm(I0), // index >= 0
+				core.LinTerm(L).Sub(core.LinTerm(I0)).Add(core.LinConst(-64)), // entry invariant
+			}
+			for k, v := range x.St.RS {
+				if strings.HasPrefix(k, "f:") && v != "" {
+					fs = append(fs, dec(v))
+				}
+			}
+			// lengths are non-negative
+			seen := map[string]bool{}
+			for _, f := range fs {
+				for t := range f.T {
+					if strings.HasPrefix(t, "len(") && !seen[t] {
+						seen[t] = true
+						fs = append(fs, core.LinTerm(t))
+					}
+				}
+			}
+			return fs
+		}
+		nfact := 0
+		advanced := 0
+		ex := core.NewExplorer(p, core.Hooks{
+			Track: func(x *core.X, a core.Atom) bool {
+				s := a.String()
+				return strings.Contains(s, "riterBuffer.index") || strings.Contains(s, "riterBuffer.buf)") || strings.HasSuffix(core.Plain(a.L), "data") && a.R == "nil"
+			},
+			Branch: func(x *core.X, a core.Atom) {
+				if !x.Top() {
+					return
+				}
+				s := a.String()
+				if strings.Contains(s, "riterBuffer.index") || strings.Contains(s, "riterBuffer.buf)") {
+					for _, side := range []string{a.L, a.R} {
+						_ = side
+					}
+					l, ok1 := norm(x, a.L)
+					rr, ok2 := norm(x, a.R)
+					if !ok1 || !ok2 {
+						return
+					}
+					var forms []core.Lin
+					switch a.Op {
+					case "<":
+						forms = []core.Lin{rr.Sub(l).Add(core.LinConst(-1))}
+					case "<=":
+						forms = []core.Lin{rr.Sub(l)}
+					case "==":
+						forms = []core.Lin{rr.Sub(l), l.Sub(rr)}
+					}
+					for _, f := range forms {
+						nfact++
+						x.Set(fmt.Sprintf("f:%d", nfact), enc(f))
+					}
+				}
+				// data == nil: len(data) == 0
+				if a.R == "nil" && a.Op == "==" && !strings.Contains(a.L, "(") {
+					nfact++
+					x.Set(fmt.Sprintf("f:%d", nfact), enc(core.LinTerm("len("+core.Plain(a.L)+")").Scale(-1)))
+				}
+			},
+			Instr: func(x *core.X) {
+				if !x.Top() {
+					return
+				}
+				if c := core.StaticCallee(x.Ins); c != nil && recvName(c) == "StreamWriterBuffer" && c.Name() == "WriteToConn" {
+					// the function returns on error; on success the buffer is empty
+					x.Set("cur", enc(core.LinConst(0)))
+					return
+				}
+				st, ok := x.Ins.(*ssa.Store)
+				if !ok {
+					return
+				}
+				k, ok := storeKey(st.Addr)
+				if !ok || k != idxKey {
+					return
+				}
+				v := x.Canon(st.Val).S
+				if n, err := strconv.ParseInt(v, 10, 64); err == nil {
+					x.Set("cur", enc(core.LinConst(n)))
+					return
+				}
+				nv, _ := norm(x, v)
+				advanced++
+				x.Set("adv", "1")
+				key := name + ": advance by " + stable(core.Plain(core.ParseLin(v).Sub(core.ParseLin(strings.TrimPrefix(core.Plain(x.Canon(st.Addr).S), "&"))).String()))
+				target := core.LinTerm(L).Sub(nv)
+				if core.LinEntails(base(x), target) {
+					r.Hold(rule, key, x.Pos(), "fits: index after the advance <= len(buf)")
+				} else {
+					r.Violate(rule, key, x.Pos(), "the write index is advanced to "+nv.String()+" without the path establishing that this stays within len(buf): copy() truncates silently, the index runs past the buffer and the next flush slices buf[:index] out of range (connection goroutine panics, process dies)", x.St.Trace)
+				}
+				x.Set("cur", enc(nv))
+			},
+			Exit: func(x *core.X, rets []core.Expr) {
+				if x.Get("adv") != "1" {
+					return
+				}
+				if len(rets) == 1 && rets[0].S != "nil" {
+					return // error return: the connection is torn down
+				}
+				key := name + ": invariant at exit"
+				target := core.LinTerm(L).Sub(cur(x)).Add(core.LinConst(-64))
+				if core.LinEntails(base(x), target) {
+					r.Hold(rule, key, x.Pos(), "index+64 <= len(buf) re-established")
+				} else {
+					r.Violate(rule, key, x.Pos(), "returns with the write index at "+cur(x).String()+" without room for the next 64-byte header having been checked: the next reply is appended without a fit test", x.St.Trace)
+				}
+			},
+		})
+		ex.Run(fn, nil)
+		if ex.Imprecise != "" {
+			r.Fail("C13/R7 %s: %s", name, ex.Imprecise)
+		}
+		if advanced == 0 {
+			r.Fail("C13/R7 %s: no advance of the write index explored", name)
 		}
 	}
 }
